@@ -1,1 +1,2 @@
+pub mod ks;
 pub mod res;
